@@ -31,7 +31,7 @@ func (h MultiFundraisingHooks) BeforeFixedPriceAuctionCreated(
 	endTime time.Time,
 ) error {
 	for i := range h {
-		h[i].BeforeFixedPriceAuctionCreated(
+		if err := h[i].BeforeFixedPriceAuctionCreated(
 			ctx,
 			auctioneer,
 			startPrice,
@@ -40,7 +40,9 @@ func (h MultiFundraisingHooks) BeforeFixedPriceAuctionCreated(
 			vestingSchedules,
 			startTime,
 			endTime,
-		)
+		); err != nil {
+			return err
+		}
 	}
 	return nil
 }
